@@ -86,6 +86,7 @@ pub fn shape_probes(spec: &Spec, st: &mut Stats) {
             CopySpec::AdvInst { .. } => "copy_instance",
             CopySpec::AdvConst { .. } => "copy_constant",
             CopySpec::AdvFixed { .. } => "copy_fixed",
+            CopySpec::Class { .. } => "copy_class",
         });
     }
     if spec.v1 {
